@@ -83,8 +83,9 @@ func (stream *receiverStream) processRTP(now time.Time, pktHeader *rtp.Header) {
 
 		// compute jitter
 		// https://tools.ietf.org/html/rfc3550#page-39
+		// RTP timestamps are modulo 2^32: take their difference as a wrapping 32-bit value (RFC 3550 A.8)
 		D := now.Sub(stream.lastRTPTimeTime).Seconds()*stream.clockRate -
-			(float64(pktHeader.Timestamp) - float64(stream.lastRTPTimeRTP))
+			float64(int32(pktHeader.Timestamp-stream.lastRTPTimeRTP)) //nolint:gosec // G115
 		if D < 0 {
 			D = -D
 		}
